@@ -335,6 +335,31 @@ impl Prop for C09 {
                 },
             ));
         }
+        {
+            let langs2 = langs.clone();
+            f.push(Family::new(
+                "difference-with-month-names",
+                Mode::Full,
+                "'A to B' (tr: 'A B arası') with both dates written with month names, for days [1, 15, 28] x all 144 ordered month pairs (so also the same month twice on one line) x years [2021/2021, 1999/2021] x long and short names, in every language that has the phrase: the absolute number of days",
+                move |ch| {
+                    let l = ch.pick(&langs2).clone();
+                    let (m1, m2) = (1 + ch.choose(12) as i64, 1 + ch.choose(12) as i64);
+                    let (d1, d2) = (*ch.pick(&[1i64, 15, 28]), *ch.pick(&[1i64, 15, 28]));
+                    let (y1, y2) = *ch.pick(&[(2021i64, 2021i64), (1999, 2021)]);
+                    let short = ch.flag();
+                    let name = |m: i64| {
+                        let ns = month_names(&l, m);
+                        let pick = if short { ns.iter().min_by_key(|n| n.chars().count()) } else { ns.iter().max_by_key(|n| n.chars().count()) };
+                        pick.cloned().unwrap_or_default()
+                    };
+                    let a = format!("{} {} {}", d1, name(m1), y1);
+                    let b = format!("{} {} {}", d2, name(m2), y2);
+                    let text = if l == "tr" { format!("{} {} arası", a, b) } else { format!("{} to {}", a, b) };
+                    let days = (cal::days_from_civil(y1, m1, d1) - cal::days_from_civil(y2, m2, d2)).abs();
+                    Some(LineCase::new(text, Expect::Value(Val::Duration(days * 86400), 0.0), "difference-names").with_lang(&l))
+                },
+            ));
+        }
         // day words -------------------------------------------------------------------------------
         {
             let langs = langs.clone();
